@@ -1,8 +1,148 @@
-(* C05 - proofs about the model in WH.Model.Mendel *)
-From Coq Require Import ZArith NArith List Bool Arith Lia.
+(* C05 - proofs about the model in WH.Model.Mendel (stdlib style) *)
+From Coq Require Import ZArith NArith List Bool Arith Lia Permutation.
 From WH.Model Require Import Mendel.
 Import ListNotations.
 Local Open Scope nat_scope.
 
-Lemma sel_negb_involutive : forall (A : Type) (p : A * A) b, sel p (negb (negb b)) = sel p b.
-Proof. intros A p b. now rewrite negb_involutive. Qed.
+(* ------------------------------------------------------------------ well-formed (acyclic) pedigrees *)
+(* n individuals, triples ts; rk is a topological numbering: parents are numbered below their child *)
+Record wf_ped (n : nat) (ts : list triple) (rk : nat -> nat) : Prop := {
+  wf_idx : forall tr, In tr ts -> tr_father tr < n /\ tr_mother tr < n /\ tr_child tr < n;
+  wf_child_once : NoDup (map tr_child ts);
+  wf_rank : forall tr, In tr ts -> rk (tr_father tr) < rk (tr_child tr) /\ rk (tr_mother tr) < rk (tr_child tr);
+  wf_rank_bound : forall i, i < n -> rk i < n
+}.
+
+(* ------------------------------------------------------------------ triple_of *)
+Lemma triple_of_some : forall ts k0 i k tr,
+  triple_of ts k0 i = Some (k, tr) ->
+  k0 <= k /\ nth_error ts (k - k0) = Some tr /\ tr_child tr = i.
+Proof.
+  induction ts as [|t0 rest IH]; intros k0 i k tr H; cbn [triple_of] in H.
+  - discriminate.
+  - destruct (triple_of rest (S k0) i) as [r|] eqn:E.
+    + inversion H; subst r. apply IH in E. destruct E as (Hle & Hn & Hc).
+      split; [lia|]. split; [|exact Hc].
+      replace (k - k0) with (S (k - S k0)) by lia. exact Hn.
+    + destruct (tr_child t0 =? i) eqn:Ec; [|discriminate].
+      inversion H; subst. apply Nat.eqb_eq in Ec.
+      split; [lia|]. split; [|exact Ec]. now rewrite Nat.sub_diag.
+Qed.
+
+Lemma triple_of_none : forall ts k0 i,
+  triple_of ts k0 i = None <-> ~ In i (map tr_child ts).
+Proof.
+  induction ts as [|t0 rest IH]; intros k0 i; cbn [triple_of map].
+  - split; [intros _ []|reflexivity].
+  - destruct (triple_of rest (S k0) i) as [r|] eqn:E.
+    + split; [discriminate|]. intros Hn. exfalso. apply Hn. right.
+      destruct (in_dec Nat.eq_dec i (map tr_child rest)) as [Hi|Hi]; [exact Hi|].
+      apply (IH (S k0)) in Hi. congruence.
+    + apply IH in E. destruct (tr_child t0 =? i) eqn:Ec.
+      * apply Nat.eqb_eq in Ec. split; [discriminate|]. intros Hn. exfalso. apply Hn. now left.
+      * apply Nat.eqb_neq in Ec. split; [|reflexivity]. intros _ [H|H]; [congruence|]. now apply E.
+Qed.
+
+Lemma triple_of_nodup : forall ts k0 j tr,
+  NoDup (map tr_child ts) -> nth_error ts j = Some tr ->
+  triple_of ts k0 (tr_child tr) = Some (k0 + j, tr).
+Proof.
+  induction ts as [|t0 rest IH]; intros k0 j tr Hnd Hn.
+  - destruct j; discriminate.
+  - cbn [map] in Hnd. inversion Hnd as [|x l Hni Hnd']; subst. cbn [triple_of].
+    destruct j as [|j]; cbn [nth_error] in Hn.
+    + inversion Hn; subst t0.
+      assert (E : triple_of rest (S k0) (tr_child tr) = None) by (now apply triple_of_none).
+      rewrite E, Nat.eqb_refl. f_equal. f_equal. lia.
+    + rewrite (IH (S k0) j tr Hnd' Hn). f_equal. f_equal. lia.
+Qed.
+
+Lemma triple_of_in : forall ts k0 i k tr, triple_of ts k0 i = Some (k, tr) -> In tr ts.
+Proof.
+  intros ts k0 i k tr H. apply triple_of_some in H. destruct H as (_ & Hn & _).
+  eapply nth_error_In; eauto.
+Qed.
+
+(* ------------------------------------------------------------------ h2p_rec: termination, fuel *)
+Section Fuel.
+Variables (n : nat) (ts : list triple) (rk : nat -> nat).
+Hypothesis WF : wf_ped n ts rk.
+Variable tb : nat -> bool.
+
+Lemma h2p_rec_terminates : forall fuel i, rk i < fuel \/ is_root ts i = true ->
+  exists p, h2p_rec ts tb fuel i = Some p.
+Proof.
+  induction fuel as [|fuel IH]; intros i Hi.
+  - destruct Hi as [Hi|Hi]; [lia|]. unfold is_root in Hi. cbn [h2p_rec].
+    destruct (triple_of ts 0 i) as [[k tr]|]; [discriminate|]. eauto.
+  - cbn [h2p_rec]. destruct (triple_of ts 0 i) as [[k tr]|] eqn:E; [|eauto].
+    destruct Hi as [Hi|Hi]; [|unfold is_root in Hi; rewrite E in Hi; discriminate].
+    pose proof (triple_of_in _ _ _ _ _ E) as Hin.
+    pose proof (triple_of_some _ _ _ _ _ E) as (_ & _ & Hc).
+    destruct (wf_rank _ _ _ WF tr Hin) as [Hf Hm]. rewrite Hc in Hf, Hm.
+    destruct (IH (tr_father tr)) as [pf Epf]; [left; lia|].
+    destruct (IH (tr_mother tr)) as [pm Epm]; [left; lia|].
+    rewrite Epf, Epm. eauto.
+Qed.
+
+Lemma h2p_rec_mono : forall fuel i p, h2p_rec ts tb fuel i = Some p ->
+  forall fuel', fuel <= fuel' -> h2p_rec ts tb fuel' i = Some p.
+Proof.
+  induction fuel as [|fuel IH]; intros i p H fuel' Hle.
+  - cbn [h2p_rec] in H. destruct fuel'; cbn [h2p_rec];
+      destruct (triple_of ts 0 i) as [[k tr]|]; try discriminate; exact H.
+  - destruct fuel' as [|fuel']; [lia|]. cbn [h2p_rec] in *.
+    destruct (triple_of ts 0 i) as [[k tr]|]; [|exact H].
+    destruct (h2p_rec ts tb fuel (tr_father tr)) as [pf|] eqn:Ef; [|discriminate].
+    destruct (h2p_rec ts tb fuel (tr_mother tr)) as [pm|] eqn:Em; [|discriminate].
+    rewrite (IH _ _ Ef fuel') by lia. rewrite (IH _ _ Em fuel') by lia. exact H.
+Qed.
+
+Lemma h2p_rec_total : forall i, i < n -> exists p, h2p_rec ts tb n i = Some p.
+Proof.
+  intros i Hi. apply h2p_rec_terminates. left. now apply (wf_rank_bound _ _ _ WF).
+Qed.
+
+(* the mechanism of the property: the child's haplotype 0 shares its partition with the father's
+   haplotype [!(bit 2k)], its haplotype 1 with the mother's haplotype [!(bit 2k+1)] *)
+Lemma child_shares_rec : forall k tr, nth_error ts k = Some tr ->
+  exists pf pm,
+    h2p_rec ts tb n (tr_father tr) = Some pf /\
+    h2p_rec ts tb n (tr_mother tr) = Some pm /\
+    h2p_rec ts tb n (tr_child tr) = Some (sel pf (negb (tb (2 * k))), sel pm (negb (tb (2 * k + 1)))).
+Proof.
+  intros k tr Hn.
+  pose proof (nth_error_In _ _ Hn) as Hin.
+  destruct (wf_idx _ _ _ WF tr Hin) as (Hf & Hm & Hc).
+  destruct (wf_rank _ _ _ WF tr Hin) as [Rf Rm].
+  pose proof (wf_rank_bound _ _ _ WF _ Hc) as Rc.
+  pose proof (triple_of_nodup ts 0 k tr (wf_child_once _ _ _ WF) Hn) as E. cbn [Nat.add] in E.
+  destruct n as [|n']; [lia|].
+  destruct (h2p_rec_terminates n' (tr_father tr)) as [pf Epf]; [left; lia|].
+  destruct (h2p_rec_terminates n' (tr_mother tr)) as [pm Epm]; [left; lia|].
+  exists pf, pm. split; [|split].
+  - apply (h2p_rec_mono _ _ _ Epf). lia.
+  - apply (h2p_rec_mono _ _ _ Epm). lia.
+  - cbn [h2p_rec]. rewrite E, Epf, Epm. reflexivity.
+Qed.
+End Fuel.
+
+Lemma h2p_tab_spec : forall n ts t i, i < n -> h2p_tab n ts t i = h2p n ts t i.
+Proof.
+  intros n ts t i Hi. unfold h2p_tab.
+  rewrite (nth_indep _ None (h2p n ts t 0)) by (now rewrite map_length, seq_length).
+  rewrite map_nth, seq_nth by exact Hi. reflexivity.
+Qed.
+
+Lemma h2p_tab_out : forall n ts t i, n <= i -> h2p_tab n ts t i = None.
+Proof.
+  intros n ts t i Hi. unfold h2p_tab. apply nth_overflow. now rewrite map_length, seq_length.
+Qed.
+
+Theorem child_shares_partition : forall n ts rk, wf_ped n ts rk ->
+  forall (t : N) k tr, nth_error ts k = Some tr ->
+  exists pf pm,
+    h2p n ts t (tr_father tr) = Some pf /\
+    h2p n ts t (tr_mother tr) = Some pm /\
+    h2p n ts t (tr_child tr) = Some (sel pf (negb (tbit t (2 * k))), sel pm (negb (tbit t (2 * k + 1)))).
+Proof. intros n ts rk WF t k tr Hn. unfold h2p. eapply child_shares_rec; eauto. Qed.
